@@ -102,7 +102,7 @@ def read_obligations(pid):
     return obs
 
 
-def audit(pid, modules, obligations, thorough):
+def audit(pid, modules, obligations, thorough, partial=False):
     """Step 3. Returns (discharged names, problems list, axioms map)."""
     problems = []
     # forbidden tokens in every Lean source of the project (outside comments)
@@ -132,6 +132,24 @@ def audit(pid, modules, obligations, thorough):
         axioms[m.group(1)] = [a.strip() for a in m.group(2).split(",") if a.strip()]
     for m in re.finditer(r"'([^']+)' does not depend on any axioms", joined):
         axioms[m.group(1)] = []
+    if partial and any(not [k for k in axioms if k == ob or k.endswith("." + ob)] for ob in obligations):
+        # one of the modules does not build: audit module by module, so that only the theorems of the broken module (and of
+        # those that import it) count as not discharged, and the report names them
+        for m in modules:
+            text1 = "import {}\nopen Hera\n".format(m) + "".join("#print axioms {}\n".format(ob) for ob in obligations)
+            apath1 = os.path.join(LEAN, "HeraProofs", "Audit", pid + "_part.lean")
+            with open(apath1, "w") as f:
+                f.write(text1)
+            rc1, out1 = sh(["lake", "env", "lean", apath1], cwd=LEAN, timeout=1200)
+            joined1 = re.sub(r"\n\s+", " ", out1)
+            for mm in re.finditer(r"'([^']+)' depends on axioms: \[([^\]]*)\]", joined1):
+                axioms.setdefault(mm.group(1), [a.strip() for a in mm.group(2).split(",") if a.strip()])
+            for mm in re.finditer(r"'([^']+)' does not depend on any axioms", joined1):
+                axioms.setdefault(mm.group(1), [])
+            try:
+                os.remove(apath1)
+            except OSError:
+                pass
     discharged = []
     for ob in obligations:
         full = [k for k in axioms if k == ob or k.endswith("." + ob)]
@@ -217,7 +235,13 @@ def run_check(pid, tier, seed, t0):
         if not ok:
             errs = [l for l in log.splitlines() if "error" in l][:12]
             broken.append("proof modules {} no longer build: {}".format(prop.MODULES, " | ".join(errs)))
-        discharged, problems, axioms = audit(pid, prop.MODULES, obligations, thorough) if ok else ([], [], {})
+        if ok:
+            discharged, problems, axioms = audit(pid, prop.MODULES, obligations, thorough)
+        else:
+            # which of the modules still build? (a module that does not build may have left a stale compiled file behind:
+            # only modules that `lake build` accepts now are audited) - their theorems stay discharged, the report names the rest
+            good = [m for m in prop.MODULES if build([m])[0]]
+            discharged, problems, axioms = audit(pid, good, obligations, False, partial=True) if good else ([], [], {})
         broken.extend(problems)
     if not os.path.exists(os.path.join(LEAN, ".lake", "build", "bin", "herad")):
         raise RuntimeError("model driver herad is not built:\n" + log_drv[-2000:])
